@@ -33,6 +33,8 @@ RULE = ("behaviours = abstract message shapes x session options enumerated by TL
         "by FramingTrace.tla. non-trivial = a distinct (shape, options) whose octets were actually emitted "
         "and read back")
 ASSUMPTIONS = [
+    "domain = structurally valid messages: zero-length COMMUNITIES / CLUSTER_LIST / EXTENDED COMMUNITIES / "
+    "LARGE_COMMUNITY attributes (malformed per RFC 7606 7.8/7.10/7.14) are not generated; they are C05 mutation inputs",
     "trusted: my transcription of the RFC framing rules in spec/Framing.tla and of the expected wire image in "
     "spec/FramingDom.tla (cross-checked against each other exhaustively in small scope by MCFraming)",
     "value-level equality is the harness-computed boolean `equal` (reflect.DeepEqual modulo nil/empty slices and "
